@@ -79,8 +79,42 @@ def run(ck):
                 if He.shape != Href.shape or numpy.abs(He - Href).max() > 1e-9 * max(1.0, numpy.abs(Href).max()):
                     ck.fail("electronic-hamiltonian", "get_electronic_Hamiltonian() differs from the Frenkel-exciton rule", inp,
                             float(numpy.abs(He - Href).max()) if He.shape == Href.shape else list(He.shape))
+                # ... also when it is asked for inside a units context (values then read in those units)
+                for uq in ("1/cm", "eV"):
+                    fq = float(qr.convert(1.0, uq, "int"))
+                    with energy_units(uq):
+                        Hq = numpy.array(agg.get_electronic_Hamiltonian().data) * fq / fac
+                    if Hq.shape != Href.shape or numpy.abs(Hq - Href).max() > 1e-9 * max(1.0, numpy.abs(Href).max()):
+                        ck.fail("electronic-hamiltonian:units", "get_electronic_Hamiltonian() requested inside energy_units(%r) differs from the "
+                                "Frenkel-exciton rule" % uq, dict(inp, requested_inside=uq), float(numpy.abs(Hq - Href).max()) if Hq.shape == Href.shape else list(Hq.shape))
             except Exception as e:
                 ck.fail("raises:electronic-hamiltonian", "get_electronic_Hamiltonian raised %r" % (e,), inp)
+            # ---- the Hamiltonian handed out is still the Frenkel matrix after the cut-off bracket that the combined theories put around
+            # their work (couplings above the cut-off reduced by it, then given back), for couplings of both signs -----------------------
+            if rep % 2 == 1 and n >= 2:
+                try:
+                    Hop = agg.get_Hamiltonian()
+                    mags = sorted(abs(J[i][j]) for i in range(n) for j in range(i + 1, n) if J[i][j] != 0)
+                    if mags:
+                        cut_in = 0.5 * mags[len(mags) // 2] if mags[len(mags) // 2] > 0 else 0.5        # in input units: below the median magnitude
+                        with energy_units(unit):
+                            Hop.subtract_cutoff_coupling(cut_in)
+                        mid = numpy.array(Hop._data) / fac
+                        Hop.recover_cutoff_coupling()
+                        back = numpy.array(Hop._data) / fac
+                        if numpy.abs(back - Href).max() > 1e-9 * max(1.0, numpy.abs(Href).max()):
+                            ck.fail("hamiltonian:after-cutoff-bracket", "the Hamiltonian is not the Frenkel matrix any more after subtract_cutoff_coupling + "
+                                    "recover_cutoff_coupling", dict(inp, cutoff=cut_in), float(numpy.abs(back - Href).max()))
+                        # in between: every coupling above the cut-off is reduced in magnitude by it, the smaller ones are gone
+                        for i_ in range(1, n + 1):
+                            for j_ in range(i_ + 1, n + 1):
+                                jv = float(J[i_ - 1][j_ - 1])
+                                wantm = 0.0 if abs(jv) <= cut_in else (abs(jv) - cut_in) * (1 if jv > 0 else -1)
+                                if abs(mid[i_, j_] - wantm) > 1e-9 * max(1.0, abs(jv)):
+                                    ck.fail("hamiltonian:inside-cutoff-bracket", "coupling inside the cut-off bracket is not sign(J)(|J| - c)", dict(inp, cutoff=cut_in, pair=[i_, j_]),
+                                            float(mid[i_, j_]), wantm)
+                except Exception as e:
+                    ck.fail("raises:cutoff-bracket", "subtract/recover_cutoff_coupling raised %r" % (e,), inp)
             # ---- the operators handed out stay the Frenkel ones after the aggregate transformed its internal copies ----------
             if rep % 2 == 0 and n >= 2:
                 try:
@@ -153,6 +187,7 @@ def run(ck):
                             ck.fail("relabel:exciton-dipoles", "exciton dipole strengths change under relabelling", dict(inp, perm=perm))
                 except Exception as e:
                     ck.fail("raises:relabel", "relabelled build raised %r" % (e,), dict(inp, perm=perm))
+    multilevel(ck, qr, numpy)
     point_dipole(ck, qr, numpy, const)
     model = ck.drive(DRIVER, lines)
     if model is not None:
@@ -271,3 +306,43 @@ def point_dipole(ck, qr, numpy, const):
         got2 = float(agg.HH[2, 1])
         if got2 != got:
             ck.fail("point-dipole:symmetric", "generated coupling not symmetric", inp)
+
+
+def multilevel(ck, qr, numpy):
+    """molecules with more than one excited level: the states are still ordered by band (total number of excitation quanta), every
+    signature allowed by the level counts occurs exactly once, and the diagonal is the sum of the molecular level energies"""
+    import itertools
+    from quantarhei import Molecule, Aggregate, energy_units
+    rng = ck.rng
+    for h in range(ck.n(4, 20)):
+        n = rng.choice([2, 2, 3])
+        mult = 2 if h % 4 != 3 else 1
+        levels = [rng.choice([2, 3, 3]) for _ in range(n)]
+        if h == 0:
+            n, levels = 2, [3, 3]
+        if h == 1:
+            n, levels = 3, [3, 2, 3]
+        ens = [[0.0] + sorted(rng.randint(8, 30) / 8.0 + 1.5 * q for q in range(levels[k] - 1)) for k in range(n)]
+        inp = {"levels_per_molecule": levels, "energies": ens, "mult": mult}
+        try:
+            agg = Aggregate([Molecule(list(e)) for e in ens])
+            agg.build(mult=mult)
+            sigs = [tuple(int(x) for x in s_) for s_ in agg.elsigs]
+            Hd = numpy.real(numpy.diag(numpy.array(agg.HH)))
+        except Exception as e:
+            ck.fail("raises:multilevel", "building an aggregate of multi-level molecules raised %r" % (e,), inp)
+            continue
+        ck.case(("multilevel", tuple(levels), mult, h), nontrivial=True, n=n, mult=mult, units="int")
+        want = [t for t in itertools.product(*[range(l) for l in levels]) if sum(t) <= mult]
+        if sorted(sigs) != sorted(want) or len(set(sigs)) != len(sigs):
+            ck.fail("signatures:multilevel", "electronic states of multi-level molecules are not every signature with at most `mult` quanta exactly once",
+                    inp, sigs, sorted(want, key=lambda t: (sum(t), t)))
+            continue
+        if [sum(t) for t in sigs] != sorted(sum(t) for t in sigs):
+            ck.fail("signatures:multilevel:order", "states of multi-level molecules are not ordered by band", inp, sigs)
+        nb = [sum(1 for t in sigs if sum(t) == b) for b in range(mult + 1)]
+        if list(agg.Nb) != nb:
+            ck.fail("bands:multilevel", "band sizes wrong for multi-level molecules", inp, list(agg.Nb), nb)
+        wantd = numpy.array([sum(ens[k][t[k]] for k in range(n)) for t in sigs])
+        if numpy.abs(Hd - wantd).max() > 1e-12 * max(1.0, numpy.abs(wantd).max()):
+            ck.fail("hamiltonian:multilevel:diagonal", "diagonal elements are not the sums of the molecular level energies", inp, Hd.tolist(), wantd.tolist())
